@@ -68,3 +68,16 @@ func encodeUTF8(codePoint int) []byte {
 	// Invalid code point, return replacement character (U+FFFD)
 	return []byte{0xEF, 0xBF, 0xBD}
 }
+
+// mustStayEscaped reports whether a character denoted by a \x or \u escape has
+// to remain an escape sequence in the token literal: quotes and the backslash
+// would change the structure of the string when written out raw, line
+// terminators cannot appear raw in a string literal, and a lone surrogate has
+// no UTF-8 encoding.
+func mustStayEscaped(codePoint int) bool {
+	switch codePoint {
+	case '"', '\'', '\\', '\n', '\r', 0x2028, 0x2029:
+		return true
+	}
+	return codePoint >= 0xD800 && codePoint <= 0xDFFF
+}
